@@ -135,6 +135,7 @@ class GetsetFault(Getset):
         phi = e.choose(len(exp) + 1, "phi")
         out_path = b"/out/result.fa"
         e.fs.fault_at = phi if phi < len(exp) else None
+        e.fs.fault_path = out_path                   # only the -o destination is short of space (temporary files are elsewhere)
         r = e.call_fn(CLI, "getset_command", [S(b"/in/archive.agc"), VecObj([S(NAMES[0]), S(NAMES[1])]), none(), some(S(out_path)), Int(32, 0, 0)])
         e.inputs["request"] = [NAMES[0].decode(), NAMES[1].decode()]
         if phi == len(exp):
